@@ -136,7 +136,7 @@ def bleuFloat (inputLen targetLen : Q) (ms ps ws : List Q) : Float :=
   bp * gm
 
 /-- `weights=`: tensor or none (uniform 1/n). -/
-def weightsOf (a : Args) (n : Nat) : Except String (Option (List Q)) := do
+def weightsOf (a : Args) (_n : Nat) : Except String (Option (List Q)) := do
   match ← a.tensor? "weights" with
   | none => pure none
   | some w => pure (some w.data)
